@@ -2352,7 +2352,8 @@ def r02_7(cx, R, S):
         ok = False
         for n in H.walk(pbm["body"]):
             if n.get("k") == "let" and "init" in n and n["pat"].get("k") == "bind":
-                calls = [x for x in H.walk(n["init"]) if x.get("k") == "mcall" and x["name"] in ("try_into", "try_from")]
+                calls = [x for x in H.walk(n["init"]) if (x.get("k") == "mcall" and x["name"] in ("try_into", "try_from"))
+                         or (x.get("k") == "call" and H.callee_name(x) in ("try_from", "try_into"))]     # `u16::try_from(len)` == `len.try_into()`
                 lens = [x for x in H.walk(n["init"]) if x.get("k") == "mcall" and x["name"] == "len"]
                 if calls and lens and any(x.get("k") == "try" for x in H.walk(n["init"])):
                     iid = n["pat"]["id"]
